@@ -227,7 +227,7 @@ pub fn c03_light<F: Fam>(ctx: &Ctx, sw: &Sweep, b: &[u8]) {
     for (entry, o) in [("Packet::decode", &o1), ("Packet::decode_async", &o2), ("PollPacket", &o3)] {
         match o {
             Out::Panic(m) => c03_report::<F>(ctx, b, entry, format!("panic: {m}")),
-            Out::Stuck => c03_report::<F>(ctx, b, entry, "future pending on an always-ready transport".into()),
+            Out::Stuck => c03_report::<F>(ctx, b, entry, "does not terminate: stays pending or keeps reading after the end of an always-ready input".into()),
             Out::Pkt(p) => match guard(|| F::walk(p)) {
                 Ok(Ok(())) => {}
                 Ok(Err(w)) => c03_report::<F>(ctx, b, entry, format!("returned a packet violating a type invariant: {w}")),
